@@ -241,6 +241,19 @@ def r04_5(ctx):
                     ro = simplify(F.origin.place(b, field_place(rl, R, src), w['bb'], w['si']))
                     if ro == o:
                         okv = True
+                    elif fld == 'remote_last_win':
+                        # the window field of a SYN is not scaled: the book-keeping value may be the emitted field shifted
+                        # right by the window scale (R04.8 decides on which branch that is required)
+                        ro_alts = [strip(ro)] + ([strip(x) for x in strip(ro)[1]] if strip(ro)[0] == 'phi' else [])
+
+                        def emitted(a):
+                            a = strip(a)
+                            if a in ro_alts:
+                                return True
+                            return a[0] == 'bin' and a[1] == 'Shr' and strip(a[2]) in ro_alts and any(l.endswith('.remote_win_shift') for l in leafs(a[3]))
+                        alts_ = list(strip(o)[1]) if strip(o)[0] == 'phi' else [o]
+                        if all(emitted(a) for a in alts_):
+                            okv = True
                 if okv:
                     ctx.ok((fn, fld), sample=dict(fn=fn, field=fld, value=f"repr.{src}"))
                 else:
